@@ -110,8 +110,8 @@ func corrShow(c *vh.Ctx) {
 	}
 	answers := c.LeanBatch(reqs)
 	for i, k := range cases {
-		if answers[i] == "err unsupported" {
-			c.Hit("show-corr-skipped:unsupported")
+		if answers[i] == "err unsupported" || answers[i] == "bad-token" {
+			c.Hit("show-corr-skipped:unsupported") // regex literals and builtin calls are outside the model
 			continue
 		}
 		c.Trace()
